@@ -42,7 +42,7 @@ REQUIRED = {
     "cold_multi_subscriber_cases": {"quick": 250, "thorough": 25000},
     "hot_multi_subscriber_cases": {"quick": 250, "thorough": 25000},
     "unsubscribe_inside_callback": {"quick": 300, "thorough": 30000},
-    "hot_terminal_with_2plus_live_subscribers": {"quick": 100, "thorough": 10000},
+    "hot_terminal_with_2plus_live_subscribers": {"quick": 80, "thorough": 8000},
     "notifications_compared": {"quick": 8000, "thorough": 800000},
 }
 UTC = _dt.timezone.utc
@@ -378,6 +378,17 @@ def first_diff(exp: list, got: list, default_error: bool) -> int | None:
     return None if len(exp) == len(got) else min(len(exp), len(got))
 
 
+def is_subsequence(got: list, offered: list, default_error: bool) -> bool:
+    j = 0
+    for g in got:
+        while j < len(offered) and cmp_lists([offered[j]], [g], default_error, 1e-6) is not None:
+            j += 1
+        if j == len(offered):
+            return False
+        j += 1
+    return True
+
+
 def show_list(xs: list) -> list:
     return [[float(t) if isinstance(t, Fraction) else (t.total_seconds() if isinstance(t, _dt.timedelta) else t), k, show(v)] for (t, k, v) in xs]
 
@@ -523,6 +534,7 @@ def run_hot(case: dict, res: UnitResult, error: Any) -> tuple[str, Any] | None:
     absolute = [(base + t, k, v) for (t, k, v) in parsed]
     # expectations per subscriber
     exps = []
+    offered: dict = {}
     for o, sb in zip(observers, case["subs"]):
         at = base + Fraction(sb["at"])
         after = [m for m in absolute if m[0] > at]
@@ -531,6 +543,7 @@ def run_hot(case: dict, res: UnitResult, error: Any) -> tuple[str, Any] | None:
         if tie:
             cands.append(cut(tie + after, sb["dispose_at"]))
         exps.append((o, sb, at, cands))
+        offered[o.name] = tie + after
     term_t = next((m[0] for m in absolute if m[1] in "EC"), None)
     if term_t is not None and sum(1 for (_, _, at, cands) in exps if at < term_t and cands[0] and cands[0][-1][1] in "EC") >= 2:
         res.count("hot_terminal_with_2plus_live_subscribers")
@@ -554,8 +567,10 @@ def run_hot(case: dict, res: UnitResult, error: Any) -> tuple[str, Any] | None:
             exp, d = cands[best], diffs[best]
             # mechanism: a subscriber that was subscribed earlier left (terminal / own unsubscribe inside on_next) while
             # the very notification that this subscriber misses was being delivered
+            # ... and everything it did receive was offered to it, in order (nothing altered, only omissions)
+            explainable = is_subsequence(got, offered[o.name], error is None)
             for cand, dd in zip(cands, diffs):
-                if dd is None or dd >= len(cand):
+                if dd is None or dd >= len(cand) or not explainable:
                     continue
                 missing = cand[dd]
                 idx_o = order.index(o.name) if o.name in order else -1
